@@ -190,11 +190,41 @@ fn large_cases(ctx: &Ctx) -> Vec<(Case, bool)> {
     out
 }
 
+// A building operation returns a fresh container whatever expression names
+// its operand: a call that returns an existing list, a property, an element,
+// a parenthesised name ... (and an alias stays an alias through the same).
+fn operand_form_cases(ctx: &Ctx) -> Vec<(Case, bool)> {
+    let pre = "xs := [1, 2, 3]\nob := {\"a\": 1, \"b\": 2}\nbox := {\"items\": xs, \"props\": ob, \"all\": fn () {\n    return this.items\n}, \"every\": fn () {\n    return this.props\n}}\nfn same(v) {\n    return v\n}\nfn keep(..r) {\n    return r\n}\nholder := [xs, ob]\n";
+    let names = ["xs", "same(xs)", "box.all()", "box.items", "box[\"items\"]", "holder[0]", "(xs)", "[xs][0]", "same(same(xs))", "(fn () { return xs; })()"];
+    let builders = ["[@..]", "@[:]", "@ + []", "[] + @", "@[0:3]", "keep(@..)", "[@.., @..][0:3]", "[@..][:]"];
+    let mut out = vec![];
+    for e in names {
+        for b in builders {
+            let built = b.replace('@', e);
+            let src = format!("{pre}d := {built}\nprint([d === xs, d == xs])\nd[0] = 99\nprint(xs)\nal := {e}\nprint(al === xs)\nal[1] = 77\nprint(xs)\n");
+            let want = "[\n    false,\n    true,\n]\n[\n    1,\n    2,\n    3,\n]\ntrue\n[\n    1,\n    77,\n    3,\n]\n";
+            ctx.label("building operation on an operand written as an expression");
+            out.push((Case{property: "C05".into(), kind: "operand_form".into(), srcs: vec![src.into_bytes()], pred: Pred::Expect(Expect::ok(want.as_bytes().to_vec())), note: format!("{built}: fresh; {e}: an alias")}, true));
+        }
+        // Destructuring rest and += .
+        let src = format!("{pre}[..d] := {e}\nprint(d === xs)\nd[0] = 99\ng := {e}\ng += [4]\nprint(g === xs)\nprint(xs)\n");
+        ctx.label("building operation on an operand written as an expression");
+        out.push((Case{property: "C05".into(), kind: "operand_form".into(), srcs: vec![src.into_bytes()], pred: Pred::Expect(Expect::ok(b"false\nfalse\n[\n    1,\n    2,\n    3,\n]\n".to_vec())), note: format!("collected rest and += on {e}")}, true));
+    }
+    for e in ["ob", "same(ob)", "box.every()", "box.props", "holder[1]", "(ob)"] {
+        let src = format!("{pre}d := {{{e}..}}\nprint([d === ob, d == ob])\nd.a = 99\nprint(ob.a)\n{{..r}} := {e}\nr.b = 98\nprint(ob.b)\nal := {e}\nal.a = 5\nprint(ob.a)\n");
+        ctx.label("building operation on an operand written as an expression");
+        out.push((Case{property: "C05".into(), kind: "operand_form".into(), srcs: vec![src.into_bytes()], pred: Pred::Expect(Expect::ok(b"[\n    false,\n    true,\n]\n1\n2\n5\n".to_vec())), note: format!("object spread / collected rest of {e}")}, true));
+    }
+    out
+}
+
 pub fn run(ctx: &Ctx) {
     ctx.set_rule("all histories of length <= 3 (quick; length 4 sampled; thorough: length 4 complete, 5 sampled) over 18 list operations x 3 variable pairs {alias, store in a container, element / range / nested / op-assign mutation, mutation inside a function that also rebinds its parameter, mutation inside a closure, return from a function, [s..], s + [], s[:], [..d] = s, rest parameter from spread, d = s; d += [k], store into another container, += with a list on an element} and 11 object operations likewise, every history followed by print of all three variables and all pairwise === and ==; a catalogue for scalar immutability and freshness of every building operation; random longer programs with the aliasing profile; oracle: reference heap model; beyond the small scope: every building operation and alias on lists of 31..300 elements built three ways, objects of that many keys and long strings (expected values computed in the harness); one random program in five from the big profile. Non-trivial = the history distinguishes at least one of: assignment copies / argument passing copies / + reuses its left operand (incl. += in place) / single spread aliases / full range read aliases / collect aliases / for iterates live; distinct = distinct source texts");
     ctx.replay_corpus(None);
     ctx.judge_all(scalar_cases(), Via::Cli, None);
     ctx.judge_all(large_cases(ctx), Via::Cli, None);
+    ctx.judge_all(operand_form_cases(ctx), Via::Cli, None);
     for len in 1..=2 {
         enumerate(ctx, len, false, 1);
         enumerate(ctx, len, true, 1);
